@@ -3,33 +3,36 @@
 
     A state has the calls (one thread per call), the [pending] map tag -> response
     slot, the content of every slot's [done] channel (capacity 1: empty or one
-    value), and the [recvr] token.  Response slots have identity because they
+    value), the [recvr] token, the response slots that are never recycled, and
+    whether the connection is dead.  Response slots have identity because they
     are recycled through responsePool; a slot may be handed to a new call as
-    soon as no running call holds it.  Steps are atomic at the granularity of the
-    Go code's critical sections / channel operations:
+    soon as no running call holds it, unless it was retired.  Steps are atomic
+    at the granularity of the Go code's critical sections / channel operations:
 
-      AStart i t s    tagPool.Get = t, responsePool.Get = s, pending[t] = s
-      ASendOk i       send succeeded
-      ASendFail i     send failed: (if [wd]: withdraw pending[t] when it is still s, drain done) and return
+      AStart i t s    tagPool.Get = t, responsePool.Get = s, pending[t] = s   (before send)
+      ASendOk i       send succeeded (impossible once the connection is dead)
+      ASendFail i     send failed: (if [wd]: withdraw pending[t] when it is still s, drain done;
+                      if [keep]: the slot is not returned to responsePool) and return
       AWaitDone i     waitAndRecv: <-done
       AWaitToken i    waitAndRecv: recvr <- true with done empty, enter handleOne/recv
       ARecvErr i      recv returned an error before any lookup (connection error, bad header): broadcast
       AFrame i t' ok  recv read a header with tag t' and called lookup: unknown tag / wrong type
-                      => broadcast; else the body is being read into the slot's message
-      ABody i ok      body read and decoded (complete the call registered for t') or failed (broadcast)
+                      => broadcast; else the body is being read into the message of the slot found
+      ABody i ok      body read and decoded: complete pending[t'] (if [chk]: only when it is still the
+                      slot the lookup found, else the frame is dropped), or the read failed (broadcast)
+      AKill           the connection breaks: from now on every send and every receive fails
 
+    The peer is arbitrary: frames with any tag may arrive at any time (replies to
+    requests never completely sent, duplicated or forged replies).
     A channel send that would block (done already full) while pendingMu is held
     is the bad state TBlocked; a nil *response dereference is TPanic.
-    [wd] = sendRecv withdraws its pending entry when send fails (commit dca25c9;
-    read from the source by go2coq: ClientGen.sendrecv_withdraws).
-    [honest] = a frame carrying tag t' is only delivered once the request that
-    registered t' has been sent successfully (a server answers only requests it
-    received); without it see Properties/C10.v, C10_send_race_refuted. *)
+    [wd], [keep], [chk] are read from the source by go2coq (ClientGen:
+    sendrecv_withdraws, sendrecv_keeps_withdrawn, handleone_checks_found). *)
 From Coq Require Import Arith List Bool.
 Import ListNotations.
 
 Inductive res :=
-| ROk (t : nat) (s : nat)     (* reply frame with tag t, decoded into the message of slot s *)
+| ROk (t s o : nat)           (* reply frame with tag t, decoded into the message of slot s, which call o held at lookup *)
 | RFail.                      (* an error *)
 
 Inductive tstate :=
@@ -37,7 +40,7 @@ Inductive tstate :=
 | TReg (t s : nat)
 | TWait (t s : nat)
 | TRecv (t s : nat)
-| TLooked (t s : nat) (t' s' : nat)
+| TLooked (t s : nat) (t' s' o' : nat)
 | TDone (t s : nat) (r : res)
 | TBlocked
 | TPanic.
@@ -46,7 +49,9 @@ Record mst := mkst {
   thr : list tstate;
   pend : list (nat * nat);
   full : nat -> option res;
-  token : bool }.
+  token : bool;
+  retired : list nat;
+  dead : bool }.
 
 Inductive action :=
 | AStart (i t s : nat)
@@ -56,7 +61,8 @@ Inductive action :=
 | AWaitToken (i : nat)
 | ARecvErr (i : nat)
 | AFrame (i t' : nat) (type_ok : bool)
-| ABody (i : nat) (ok : bool).
+| ABody (i : nat) (ok : bool)
+| AKill.
 
 Definition get (l : list tstate) (i : nat) : tstate := nth i l TIdle.
 
@@ -70,7 +76,7 @@ Fixpoint upd (l : list tstate) (i : nat) (x : tstate) : list tstate :=
 (** tag and slot held by a running call *)
 Definition live (st : tstate) : option (nat * nat) :=
   match st with
-  | TReg t s | TWait t s | TRecv t s | TLooked t s _ _ => Some (t, s)
+  | TReg t s | TWait t s | TRecv t s | TLooked t s _ _ _ => Some (t, s)
   | _ => None
   end.
 
@@ -103,27 +109,40 @@ Fixpoint nodupb (l : list nat) : bool :=
   | x :: r => negb (existsb (Nat.eqb x) r) && nodupb r
   end.
 
+(** the call that holds tag t and slot s (ghost: used to say whose message object a reply is decoded into) *)
+Fixpoint owner_of (l : list tstate) (t s : nat) (i : nat) : nat :=
+  match l with
+  | [] => i
+  | st :: r =>
+      match live st with
+      | Some (t2, s2) => if (t2 =? t) && (s2 =? s) then i else owner_of r t s (S i)
+      | None => owner_of r t s (S i)
+      end
+  end.
+
+Definition setthr (m : mst) (l : list tstate) : mst := mkst l (pend m) (full m) (token m) (retired m) (dead m).
+
 (** handleOne's error path: for _, resp := range pending { resp.done <- err }; pending = {} *)
 Definition broadcast (m : mst) (i t s : nat) : mst :=
   if existsb (fun e => is_some (full m (snd e))) (pend m) || negb (nodupb (map snd (pend m)))
-  then mkst (upd (thr m) i TBlocked) (pend m) (full m) (token m)
+  then setthr m (upd (thr m) i TBlocked)
   else mkst (upd (thr m) i (TWait t s)) []
             (fun x => if existsb (fun e => snd e =? x) (pend m) then Some RFail else full m x)
-            false.
+            false (retired m) (dead m).
 
-Definition step (wd honest : bool) (m : mst) (a : action) : option mst :=
+Definition step (wd keep chk : bool) (m : mst) (a : action) : option mst :=
   match a with
   | AStart i t s =>
       match get (thr m) i with
       | TIdle =>
-          if (i <? length (thr m)) && fresh (thr m) t s
-          then Some (mkst (upd (thr m) i (TReg t s)) ((t, s) :: remove t (pend m)) (full m) (token m))
+          if (i <? length (thr m)) && fresh (thr m) t s && negb (existsb (Nat.eqb s) (retired m))
+          then Some (mkst (upd (thr m) i (TReg t s)) ((t, s) :: remove t (pend m)) (full m) (token m) (retired m) (dead m))
           else None
       | _ => None
       end
   | ASendOk i =>
       match get (thr m) i with
-      | TReg t s => Some (mkst (upd (thr m) i (TWait t s)) (pend m) (full m) (token m))
+      | TReg t s => if dead m then None else Some (setthr m (upd (thr m) i (TWait t s)))
       | _ => None
       end
   | ASendFail i =>
@@ -135,15 +154,16 @@ Definition step (wd honest : bool) (m : mst) (a : action) : option mst :=
                         | Some s' => if s' =? s then remove t (pend m) else pend m
                         | None => pend m
                         end)
-                       (fset (full m) s None) (token m))
-          else Some (mkst (upd (thr m) i (TDone t s RFail)) (pend m) (full m) (token m))
+                       (fset (full m) s None) (token m)
+                       (if keep then s :: retired m else retired m) (dead m))
+          else Some (setthr m (upd (thr m) i (TDone t s RFail)))
       | _ => None
       end
   | AWaitDone i =>
       match get (thr m) i with
       | TWait t s =>
           match full m s with
-          | Some r => Some (mkst (upd (thr m) i (TDone t s r)) (pend m) (fset (full m) s None) (token m))
+          | Some r => Some (mkst (upd (thr m) i (TDone t s r)) (pend m) (fset (full m) s None) (token m) (retired m) (dead m))
           | None => None
           end
       | _ => None
@@ -152,7 +172,7 @@ Definition step (wd honest : bool) (m : mst) (a : action) : option mst :=
       match get (thr m) i with
       | TWait t s =>
           if negb (token m) && negb (is_some (full m s))
-          then Some (mkst (upd (thr m) i (TRecv t s)) (pend m) (full m) true)
+          then Some (mkst (upd (thr m) i (TRecv t s)) (pend m) (full m) true (retired m) (dead m))
           else None
       | _ => None
       end
@@ -164,42 +184,45 @@ Definition step (wd honest : bool) (m : mst) (a : action) : option mst :=
   | AFrame i t' type_ok =>
       match get (thr m) i with
       | TRecv t s =>
+          if dead m then None else
           match lookup t' (pend m) with
           | None => Some (broadcast m i t s)                       (* ErrUnexpectedTag *)
           | Some s' =>
               if negb type_ok then Some (broadcast m i t s)        (* ErrBadResponse *)
-              else if honest && existsb (fun st => match st with TReg t2 _ => t2 =? t' | _ => false end) (thr m)
-                   then None
-                   else Some (mkst (upd (thr m) i (TLooked t s t' s')) (pend m) (full m) (token m))
+              else Some (setthr m (upd (thr m) i (TLooked t s t' s' (owner_of (thr m) t' s' 0))))
           end
       | _ => None
       end
   | ABody i ok =>
       match get (thr m) i with
-      | TLooked t s t' s' =>
+      | TLooked t s t' s' o' =>
           if ok then
+            if dead m then None else
+            let drop := Some (mkst (upd (thr m) i (TWait t s)) (pend m) (full m) false (retired m) (dead m)) in
             match lookup t' (pend m) with
-            | None => Some (mkst (upd (thr m) i TPanic) (pend m) (full m) (token m))
+            | None => if chk then drop else Some (setthr m (upd (thr m) i TPanic))
             | Some s'' =>
-                if is_some (full m s'')
-                then Some (mkst (upd (thr m) i TBlocked) (remove t' (pend m)) (full m) (token m))
+                if chk && negb (s'' =? s') then drop
+                else if is_some (full m s'')
+                then Some (mkst (upd (thr m) i TBlocked) (remove t' (pend m)) (full m) (token m) (retired m) (dead m))
                 else Some (mkst (upd (thr m) i (TWait t s)) (remove t' (pend m))
-                                (fset (full m) s'' (Some (ROk t' s'))) false)
+                                (fset (full m) s'' (Some (ROk t' s' o'))) false (retired m) (dead m))
             end
           else Some (broadcast m i t s)
       | _ => None
       end
+  | AKill => Some (mkst (thr m) (pend m) (full m) (token m) (retired m) true)
   end.
 
-Definition init (n : nat) : mst := mkst (repeat TIdle n) [] (fun _ => None) false.
+Definition init (n : nat) : mst := mkst (repeat TIdle n) [] (fun _ => None) false [] false.
 
-Fixpoint run (wd honest : bool) (m : mst) (tr : list action) : option mst :=
+Fixpoint run (wd keep chk : bool) (m : mst) (tr : list action) : option mst :=
   match tr with
   | [] => Some m
-  | a :: r => match step wd honest m a with Some m' => run wd honest m' r | None => None end
+  | a :: r => match step wd keep chk m a with Some m' => run wd keep chk m' r | None => None end
   end.
 
 (** reachable states of n calls *)
-Inductive reach (wd honest : bool) (n : nat) : mst -> Prop :=
-| reach_init : reach wd honest n (init n)
-| reach_step m a m' : reach wd honest n m -> step wd honest m a = Some m' -> reach wd honest n m'.
+Inductive reach (wd keep chk : bool) (n : nat) : mst -> Prop :=
+| reach_init : reach wd keep chk n (init n)
+| reach_step m a m' : reach wd keep chk n m -> step wd keep chk m a = Some m' -> reach wd keep chk n m'.
